@@ -153,8 +153,8 @@ class FS:
             self.suspend -= 1
 
     def effect(self, kind: str, path, detail) -> None:
-        if self.suspend:
-            return
+        if self.suspend or _ACTIVE is not self:
+            return  # (a finaliser of a file object of an earlier run)
         self.n_effects += 1
         s = S.current()
         tid = s.cur.tid if s is not None else 0
@@ -216,7 +216,7 @@ class FS:
                              closefd, opener)
 
     def read_event(self, path) -> None:
-        if self.suspend:
+        if self.suspend or _ACTIVE is not self:
             return
         s = S.current()
         rel = self.rel(path)
@@ -280,6 +280,11 @@ class FS:
 
     def __exit__(self, *exc) -> bool:
         global _ACTIVE
+        # finalise file objects leaked by this run (e.g. left open by an
+        # exception) now, silently, rather than inside a later run
+        self.suspend += 1
+        import gc
+        gc.collect()
         builtins.open = _REAL["open"]
         io.open = _REAL["io_open"]
         os.replace = _REAL["replace"]
